@@ -550,22 +550,30 @@ def _purity(chk: Check, m, q: str, h: ast.ExceptHandler) -> None:
     e = h.name
     key = f"{m.name.replace('django_components.', '')}:{q}:except-purity"
     bad: List[Tuple[ast.AST, str]] = []
-    # locals that hold a raw payload value (assigned from <e>.args[i] without a total conversion such as str())
-    rawv: Set[str] = set()
-    strv: Set[str] = set()
-    for st in (x for st0 in h.body for x in walk_no_nested(st0)):
-        if isinstance(st, ast.Assign) and len(st.targets) == 1 and isinstance(st.targets[0], ast.Name):
-            v = st.value
-            if isinstance(v, ast.Subscript) and norm(v.value) == f"{e}.args":
-                rawv.add(st.targets[0].id)
-            else:
-                strv.add(st.targets[0].id)
-    rawv -= strv  # a name that is also given a converted value on another path: undecidable here, do not report
+    # a local whose definitely-reaching definition (nearest earlier assignment in the same or an enclosing block) is a raw
+    # payload value <e>.args[i], i.e. not passed through a total conversion such as str()
+    def reaching_raw(use: ast.AST, name: str) -> bool:
+        st = enclosing_stmt(use)
+        while st is not None and st is not h:
+            par = parent(st)
+            for blk in (getattr(par, "body", None), getattr(par, "orelse", None), getattr(par, "finalbody", None)):
+                if isinstance(blk, list) and st in blk:
+                    for prev in reversed(blk[: blk.index(st)]):
+                        if isinstance(prev, ast.Assign) and any(isinstance(t, ast.Name) and t.id == name for t in prev.targets):
+                            v = prev.value
+                            return isinstance(v, ast.Subscript) and norm(v.value) == f"{e}.args"
+                        if any(isinstance(x, ast.Name) and x.id == name and isinstance(x.ctx, ast.Store) for x in ast.walk(prev)):
+                            return False  # assigned somewhere inside an earlier compound statement: not definite
+            st = par if isinstance(par, ast.stmt) else None
+        return False
+
     for n in (x for st in h.body for x in walk_no_nested(st)):
-        if isinstance(n, ast.Attribute) and isinstance(parent(n), ast.Call) and parent(n).func is n and isinstance(n.value, ast.Name) and n.value.id in rawv:  # type: ignore[union-attr]
+        if isinstance(n, ast.Attribute) and isinstance(parent(n), ast.Call) and parent(n).func is n and isinstance(n.value, ast.Name) and reaching_raw(n, n.value.id):  # type: ignore[union-attr]
             bad.append((n, f"`{short(parent(n))}` calls a str method on `{n.value.id}`, which holds the raw exception payload: a non-string payload (raise MyErr(123)) turns the error into AttributeError"))
-        if isinstance(n, ast.BinOp) and any(isinstance(x, ast.Name) and x.id in rawv for x in (n.left, n.right)):
-            bad.append((n, f"`{short(n)}` concatenates the raw exception payload"))
+        if isinstance(n, ast.BinOp):
+            for x in (n.left, n.right):
+                if isinstance(x, ast.Name) and reaching_raw(n, x.id):
+                    bad.append((n, f"`{short(n)}` concatenates `{x.id}`, which holds the raw exception payload"))
         # <e>.args[i] must be guarded by a non-empty test
         if isinstance(n, ast.Subscript) and norm(n.value) == f"{e}.args" and not isinstance(n.slice, ast.Slice):
             atoms = cond_atoms(n)
